@@ -148,6 +148,27 @@ ShapeDef(i) ==
                   @@ A("S1", 2, 1) :> Fm(CallN("XIRR", <<Rng("", 3, 1, 3, 2), Rng("", 4, 1, 4, 2)>>))
                   @@ A("S1", 7, 1) :> Fm(CallN("PV", <<NumLit(<<48>>), N2, Bin("-", NumLit(<<48>>), RelRef(1, 1))>>)) ),
          names |-> <<>>, inputs |-> {A("S1", 1, 1)}]
+    [] i = "sparse" ->       \* ranges reaching beyond the stored cells; an input no cell holds until it is set; a negative and a text input
+        [cells |-> ( A("S1", 1, 1) :> Kc(-1)
+                  @@ A("S1", 1, 2) :> [c |-> "const", v |-> Txt(<<97, 98>>)]
+                  @@ A("S1", 1, 6) :> [c |-> "const", v |-> Blank]            \* never stored: absent from the workbook
+                  @@ A("S1", 2, 1) :> Fm(CallN("SUM", <<Rng("", 1, 1, 1, 8)>>))
+                  @@ A("S1", 3, 1) :> Fm(Bin("+", CallN("COUNTA", <<Rng("", 1, 1, 1, 8)>>), RelRef(1, 6)))
+                  @@ A("S1", 4, 1) :> Fm(Bin("&", RelRef(1, 2), StrLit(<<120>>)))
+                  @@ A("S1", 5, 1) :> Fm(Bin("*", RelRef(1, 1), N2)) ),
+         names |-> <<>>, inputs |-> {A("S1", 1, 1), A("S1", 1, 2), A("S1", 1, 6)}]
+    [] i = "ghost" ->        \* references to cells nobody stored: on a sheet of which nothing else is needed, on a sheet the workbook lacks
+        [cells |-> ( A("S1", 1, 1) :> Kc(1) @@ A("S 2", 1, 1) :> Kc(5)
+                  @@ A("S1", 2, 1) :> Fm(Bin("+", RelRef(1, 1), Ref("S 2", 2, 2, FALSE, FALSE)))
+                  @@ A("S1", 3, 1) :> Fm(Bin("+", Bin("*", RelRef(2, 1), N2), Ref("Sheet2", 1, 1, FALSE, FALSE)))
+                  @@ A("S1", 4, 1) :> Fm(CallN("COUNTA", <<Ref("S 2", 2, 2, FALSE, FALSE), RelRef(3, 1)>>)) ),
+         names |-> <<>>, inputs |-> {A("S1", 1, 1)}]
+    [] i = "wide" ->         \* a range that runs from the one-letter into the two-letter columns (Y1:AB1)
+        [cells |-> ( A("S1", 25, 1) :> Kc(1) @@ A("S1", 27, 1) :> Kc(1)
+                  @@ A("S1", 28, 1) :> Fm(Bin("*", RelRef(25, 1), N10))
+                  @@ A("S1", 1, 2) :> Fm(CallN("SUM", <<Rng("", 25, 1, 28, 1)>>))
+                  @@ A("S1", 2, 2) :> Fm(Bin("+", CallN("COUNTA", <<Rng("", 2, 1, 37, 1)>>), RelRef(1, 2))) ),
+         names |-> <<>>, inputs |-> {A("S1", 25, 1), A("S1", 27, 1)}]
     [] i = "cross" ->
         [cells |-> ( A("S1", 1, 1) :> Kc(1) @@ A("S 2", 1, 1) :> Kc(1)
                   @@ A("S 2", 2, 1) :> Fm(Bin("*", RelRef(1, 1), N3))
@@ -167,7 +188,9 @@ FormulaCells == {c \in Cells : content[c].c = "formula"}
 \* first n of the alternative list (configuration files select one of the two orders)
 SetMain == <<Whole(2), Bool(TRUE), Whole(0), Whole(3)>>
 SetAlt  == <<Whole(2), Txt(<<55>>), Bool(TRUE), Whole(0)>>
-SetVals == IF NSet >= 10 THEN SubSeq(SetAlt, 1, NSet - 10) ELSE SubSeq(SetMain, 1, NSet)
+\* -2 over a stored -1 (equal hashes in CPython), a text that differs from the stored one in letter case only
+SetNeg  == <<Whole(-2), Txt(<<65, 66>>), Whole(-1), Txt(<<97, 98>>)>>
+SetVals == IF NSet >= 20 THEN SubSeq(SetNeg, 1, NSet - 20) ELSE IF NSet >= 10 THEN SubSeq(SetAlt, 1, NSet - 10) ELSE SubSeq(SetMain, 1, NSet)
 
 Wb(cont) == [cells |-> cont, names |-> ShapeDef(shape).names]
 Fresh(cont, c) == Eval(cont[c].ast, c[1], Wb(cont))
@@ -225,7 +248,7 @@ Record(op, x, v, res) == Append(hist, [op |-> op, x |-> x, v |-> v, res |-> res,
 
 Init == /\ shape \in ShapeIds
         /\ inp = [a \in ShapeDef(shape).inputs |-> ShapeDef(shape).cells[a].v]
-        /\ stored = [c \in {c \in DOMAIN ShapeDef(shape).cells : ShapeDef(shape).cells[c].c = "const"} |-> ShapeDef(shape).cells[c].v]
+        /\ stored = [c \in {c \in DOMAIN ShapeDef(shape).cells : ShapeDef(shape).cells[c].c = "const" /\ ShapeDef(shape).cells[c].v # Blank} |-> ShapeDef(shape).cells[c].v]
         /\ evald = {} /\ gmemo = <<>> /\ obs = [op |-> "none"] /\ hist = <<>> /\ leak = 0
 
 Set(a, val) ==
@@ -319,7 +342,7 @@ Spec == Init /\ [][Next]_vars
 NoStale == obs.op = "evaluate" => /\ SameVal(obs.res, FreshAny(content, obs.x))
                                   /\ (content[obs.x].c = "formula" => SameVal(stored[obs.x], obs.res))
 \* every stored value of a formula cell was its fresh value at some evaluation; of an input: the last value set
-StoredInputs == \A a \in Inputs : a \in DOMAIN stored /\ SameVal(stored[a], content[a].v)
+StoredInputs == \A a \in Inputs : (a \in DOMAIN stored /\ SameVal(stored[a], content[a].v)) \/ (a \notin DOMAIN stored /\ content[a].v = Blank)
 \* get returns the last value set or computed
 GetIsStored == obs.op = "get" => SameVal(obs.res, stored[obs.x])
 \* evaluation never changes constants, formulas, names or the set of cells (C05)
